@@ -67,6 +67,14 @@ type Op struct {
 	Cache int  `json:"cache,omitempty"`
 	Fast  bool `json:"fast,omitempty"`
 	Flush int  `json:"flush,omitempty"`
+	// SaveChangeSet payload
+	CS []CSPair `json:"cs,omitempty"`
+}
+
+type CSPair struct {
+	Del bool   `json:"del,omitempty"`
+	K   []byte `json:"k"`
+	V   []byte `json:"v,omitempty"`
 }
 
 func (o Op) String() string {
@@ -102,7 +110,15 @@ func (o Op) String() string {
 	case OpImport:
 		return fmt.Sprintf("ExportImport(v%d,compress=%v)", o.Ver, o.Arg == 1)
 	case OpSaveCS:
-		return "SaveChangeSet"
+		out := "SaveChangeSet["
+		for _, p := range o.CS {
+			if p.Del {
+				out += fmt.Sprintf("del %q;", p.K)
+			} else {
+				out += fmt.Sprintf("set %q=%q;", p.K, p.V)
+			}
+		}
+		return out + "]"
 	case OpExportOpen:
 		return fmt.Sprintf("ExportOpen(v%d)", o.Ver)
 	case OpExportClose:
